@@ -99,11 +99,15 @@ def shared_globals(res, a, b):
     # dispatch pointers = data symbols defined by the rtcd translation units
     lib = os.path.join(vlib.BUILD, "tsan", "out", "libSvtAv1Enc.a")
     rc2, nm = vlib.sh(["nm", "-A", lib], timeout=300)
-    rtcd = set()
-    for l in nm.splitlines():
+    rc3, nm2 = vlib.sh(["nm", "-A", os.path.join(vlib.BUILD, "tsan", "out", "libSvtAv1Dec.a")], timeout=300)
+    rtcd, libdata = set(), set()
+    for l in (nm + "\n" + nm2).splitlines():
         f = l.split()
-        if len(f) >= 3 and "rtcd" in f[0] and f[-2] in ("B", "b", "D", "d", "C"):
-            rtcd.add(f[-1])
+        if len(f) >= 3 and f[-2] in ("B", "b", "D", "d", "C"):
+            libdata.add(re.sub(r"\.\d+$", "", f[-1]))
+            if "rtcd" in f[0]:
+                rtcd.add(f[-1])
+    names = [n for n in names if re.sub(r"\.\d+$", "", n) in libdata]      # globals of the library, not of the harness
     res.cov["shared_globals_seen"] = len(names)
     res.cov["shared_globals_dispatch_pointers"] = len([n for n in names if n in rtcd])
     for n in names:
